@@ -195,11 +195,24 @@ def parseKind (s : String) : Option CallKind :=
 
 def step : List String → String
   | ["single", retries, seq, unser, ctor, kind, tb, st] =>
+    let hk : Option (Nat × Nat × Nat) :=      -- kind h<age>:<lifetime>:<linger> = stream item after a housekeeping run (ms)
+      if kind.startsWith "h" then
+        match ((kind.drop 1).toString.splitOn ":").map String.toNat? with
+        | [some a, some l, some g] => some (a, l, g)
+        | _ => none
+      else none
+    let kind := if kind.startsWith "h" then "i" else kind
     match retries.toNat?, full pExc unser, parseCtor ctor, parseKind kind, full pVal tb, full pStep st with
     | some m, some ue, some ct, some k, some t, some s =>
       let K := genClientEnv ct
       let one := clientCall genServerEnv K (treeCodec (seq == "1") ue) drvRender k s t
       match k with
+      | .streamItem =>
+        match hk with
+        | some (age, lifetime, linger) =>
+          showResult (streamItemCall genServerEnv K (treeCodec (seq == "1") ue) drvRender lifetime linger ⟨age, none⟩ s t)
+            ++ " tries=1"
+        | none => showResult one ++ " tries=1"
       | .plain _ =>     -- a method call: through _RemoteMethod.__call__ with _pyroMaxRetries = m
         match remoteMethod K (retryBound m) m (fun _ => one) with
         | (some r, n) => showResult r ++ s!" tries={n}"
